@@ -14,7 +14,7 @@ CLAIMED = {
  "C15": ("Round-trip theorems (all inputs of each codec's domain, unbounded) for the Gallina transcriptions of the CFF/T2/T1 integer "
          "and 16.16 operand codecs, 255UInt16, UIntBase128 (plus totality of its decoder), uint32var, eexec, and the gvar/cvar run-length "
          "codecs for packed deltas (zero/byte/word/long runs, 64-value chunks; every int32 list compiles) and packed point numbers (byte/word "
-         "runs of up to 128 points, 15-bit count), table tags as identifiers, and sstruct pack/unpack/calcsize over the descriptors of every format string of the library (regenerated from the source on every run: round trip, size, nearest-grid rounding of fixed-point fields); the models are tied to "
+         "runs of up to 128 points, 15-bit count), table tags as identifiers, and sstruct pack/unpack/calcsize over the descriptors of every format string of the library (regenerated from the source on every run: round trip in both directions, size, nearest-grid rounding of fixed-point fields); the models are tied to "
          "the Python functions by differential correspondence on boundary-directed and malformed inputs and by the round-trip oracle on the "
          "implementation. Codecs not yet modelled are listed in DESIGN.md section C15.",
          "Rocq proof of codec round-trip theorems over a hand-written model + extracted-model/implementation correspondence"),
